@@ -784,6 +784,23 @@ impl Run {
                         Err(e) => err_kind(&e),
                     },
                 },
+                // removal with a single failing key-value write (the n-th from here on), then the operator's retry
+                ["rmpubf", h, n] => match (Server::handle(h), n.parse::<usize>().ok()) {
+                    (Some(handle), Some(n)) => {
+                        krill::verif::kvfault::arm(n, krill::verif::kvfault::Mode::Once);
+                        let r1 = match repo.remove_publisher(handle.clone(), &ACTOR_DEF_TEST, &krill) {
+                            Ok(()) => "ok".to_string(),
+                            Err(e) => err_kind(&e),
+                        };
+                        let fired = krill::verif::kvfault::disarm();
+                        let r2 = match repo.remove_publisher(handle, &ACTOR_DEF_TEST, &krill) {
+                            Ok(()) => "ok".to_string(),
+                            Err(e) => err_kind(&e),
+                        };
+                        format!("{}|{}|{}", r1, r2, if fired > 0 { "hit" } else { "nohit" })
+                    }
+                    _ => "badop".into(),
+                },
                 ["pub", h, spec] => match (Server::handle(h), parse_delta(spec)) {
                     (Some(handle), Some(delta)) => {
                         match repo.rfc8181_message(&handle, Query::Delta(delta), &krill) {
@@ -1150,6 +1167,8 @@ impl Gen {
         let hs = self.handles.clone();
         match k {
             0 => format!("addpub {}", self.rng.pick(&hs)),
+            1 if !registered.is_empty() && self.rng.chance(1, 2) =>
+                format!("rmpubf {} {}", self.rng.pick(&registered), self.rng.below(7)),
             1 if !registered.is_empty() => format!("rmpub {}", self.rng.pick(&registered)),
             1 | 2 => format!("rmpub {}", self.rng.pick(&hs)),
             3 if !registered.is_empty() => {
